@@ -123,17 +123,20 @@ def build_lineage(lineage):
         register_demo_property_set()
     lib = load_library(*lineage['base'])
     if lineage.get('constructed'):
-        lib = construct_copy(lib)
+        lib = construct_copy(lib, lineage['constructed'] == 'empty')
     for other, overwrite in lineage.get('merges', []):
         olib = build_lineage(other)
         record(lib.Update, olib, overwrite)
     return lib
 
 
-def construct_copy(src):
+def construct_copy(src, empty=False):
     """A library made with the public constructor (scheme + contents, no
-    uncertainty data, all other arguments left to their defaults)."""
+    uncertainty data, all other arguments left to their defaults); `empty`:
+    the scheme only, everything else left to its default."""
     from pgradd.GroupAdd.Library import GroupLibrary
+    if empty:
+        return GroupLibrary(src.scheme)
     contents = dict((g, dict((n, c.copy()) for n, c in psets.items()))
                     for g, psets in src.contents.items())
     return GroupLibrary(src.scheme, contents)
